@@ -7,7 +7,10 @@
 
 package shmipc
 
-import "encoding/binary"
+import (
+	"encoding/binary"
+	"sync/atomic"
+)
 
 // ---------------------------------------------------------------------------
 // C04 / C05: the IO queue (queue.go)
@@ -22,9 +25,35 @@ import "encoding/binary"
 //@ |   && 0 <= *q.head && *q.head <= *q.tail && *q.tail - *q.head <= q.cap
 //@ pure qelem(q *queue, i int, f int): int = mem32(q.queueBytesOnMemory, (i % q.cap)*12 + 4*f)
 
+// --- C04 under interference (variant runs put@conc / pop@conc) -------------------------------------------
+// Ghost history of the queue: gseq/goff/gst[k] = the element with absolute index k (assigned once, by the put
+// whose tail increment published index k). qInv: every live index k in [head, tail) sits in ring slot k % cap.
+// consCore&&consFrame / prodCore&&prodFrame are the two-state step relations of the single consumer and of the producers (which the
+// queue's mutex serialises); each side is verified against the other side's relation as its rely and proves
+// its own for every shared write (guarantee). Both relations are reflexive and transitive.
+//@ ghost field queue.gseq: [int]int
+//@ ghost field queue.goff: [int]int
+//@ ghost field queue.gst: [int]int
+//@ pure qInv(q *queue): bool = wfQueue(q) && q.cap >= 1 && (forall k in [*q.head, *q.tail) trig(q.gseq[k]): qelem(q, k, 0) == q.gseq[k])
+//@ |   && (forall k in [*q.head, *q.tail) trig(q.goff[k]): qelem(q, k, 1) == q.goff[k]) && (forall k in [*q.head, *q.tail) trig(q.gst[k]): qelem(q, k, 2) == q.gst[k])
+//@ pure consCore(q *queue): bool = *q.tail == old(*q.tail) && old(*q.head) <= *q.head && *q.head <= *q.tail
+//@ pure consFrame(q *queue): bool = (forall x in [0, len(q.queueBytesOnMemory)): mem8(q.queueBytesOnMemory, x) == old(mem8(q.queueBytesOnMemory, x)))
+//@ |   && q.gseq == old(q.gseq) && q.goff == old(q.goff) && q.gst == old(q.gst)
+//@ pure prodCore(q *queue): bool = *q.head == old(*q.head) && old(*q.tail) <= *q.tail && *q.tail - *q.head <= q.cap
+//@ pure prodFrame(q *queue): bool = (forall k in [old(*q.head), old(*q.tail)): using(modDistinct(k, old(*q.tail), q.cap)) ==> qelem(q, k, 0) == old(qelem(q, k, 0)) && qelem(q, k, 1) == old(qelem(q, k, 1)) && qelem(q, k, 2) == old(qelem(q, k, 2)))
+//@ |   && (forall k in [0, old(*q.tail)) trig(q.gseq[k]): q.gseq[k] == old(q.gseq[k])) && (forall k in [0, old(*q.tail)) trig(q.goff[k]): q.goff[k] == old(q.goff[k])) && (forall k in [0, old(*q.tail)) trig(q.gst[k]): q.gst[k] == old(q.gst[k]))
+
+// popView: what the single consumer needs from a producer step - only about the element at the head, no quantifier
+//@ pure headOK(q *queue): bool = wfQueue(q) && q.cap >= 1 && (*q.head < *q.tail ==> qelem(q, *q.head, 0) == q.gseq[*q.head] && qelem(q, *q.head, 1) == q.goff[*q.head] && qelem(q, *q.head, 2) == q.gst[*q.head])
+//@ pure popView(q *queue): bool = wfQueue(q) && q.cap >= 1
+//@ |   && (old(*q.head) < old(*q.tail) && using(modDistinct(*q.head, old(*q.tail), q.cap)) ==> qelem(q, *q.head, 0) == old(qelem(q, *q.head, 0)) && qelem(q, *q.head, 1) == old(qelem(q, *q.head, 1)) && qelem(q, *q.head, 2) == old(qelem(q, *q.head, 2)))
+//@ |   && (old(*q.head) < old(*q.tail) ==> q.gseq[*q.head] == old(q.gseq[*q.head]) && q.goff[*q.head] == old(q.goff[*q.head]) && q.gst[*q.head] == old(q.gst[*q.head]))
+//@ |   && (*q.head >= 1 ==> q.gseq[*q.head - 1] == old(q.gseq[*q.head - 1]) && q.goff[*q.head - 1] == old(q.goff[*q.head - 1]) && q.gst[*q.head - 1] == old(q.gst[*q.head - 1]))
+//@ |   && (*q.head < *q.tail ==> qelem(q, *q.head, 0) == q.gseq[*q.head] && qelem(q, *q.head, 1) == q.goff[*q.head] && qelem(q, *q.head, 2) == q.gst[*q.head])
+
 //@ func (*queue).put
 //@   requires wfQueue(q)
-//@   at call sync/atomic.AddInt64#0 check a0 == q.tail && qelem(q, *q.tail, 0) == e.seqID && qelem(q, *q.tail, 1) == e.offsetInShmBuf && qelem(q, *q.tail, 2) == e.status   // publication order: the slot is completely written when tail is advanced
+//@   at call? sync/atomic.AddInt64#0 check a0 == q.tail && qelem(q, *q.tail, 0) == e.seqID && qelem(q, *q.tail, 1) == e.offsetInShmBuf && qelem(q, *q.tail, 2) == e.status   // publication order: the slot is completely written when tail is advanced
 //@   assume   *q.tail < 4611686018427387904   // environment: the 64-bit logical index does not wrap (2^62 puts)
 //@   ensures  old(*q.tail - *q.head) >= q.cap ==> r0 == ErrQueueFull && *q.head == old(*q.head) && *q.tail == old(*q.tail)
 //@   ensures  old(*q.tail - *q.head) >= q.cap ==> unchanged(region(q.queueBytesOnMemory))
@@ -33,10 +62,29 @@ import "encoding/binary"
 //@   ensures  r0 == nil ==> forall i in [old(*q.head), old(*q.tail)): using(modDistinct(i, old(*q.tail), q.cap)) ==> qelem(q,i,0) == old(qelem(q,i,0)) && qelem(q,i,1) == old(qelem(q,i,1)) && qelem(q,i,2) == old(qelem(q,i,2))
 //@   ensures  wfQueue(q)
 //@   modifies *q.tail, q.queueBytesOnMemory[0:len(q.queueBytesOnMemory)]
+// put under interference by the consumer (all shared accesses lie between Lock and Unlock):
+//@   requires[C04@conc] qInv(q)
+//@   interference[C04@conc] *q.head
+//@   rely[C04@conc] consCore(q) && qInv(q)   // only *q.head is interfered with (the consumer's guarantee consFrame: it writes nothing else); qInv is the system invariant (lemmaConsumerStepKeepsQInv)
+//@   guarantee[C04@conc] prodCore(q) && prodFrame(q) && qInv(q) && popView(q)
+// every write of put is one of two producer steps whose guarantee is proved once, in isolation, by a step lemma:
+// a byte written into the free slot tail % cap (lemmaProducerSlotByte), and the publishing increment of tail
+// together with the ghost assignment of the published element (lemmaProducerPublish)
+//@   bystep[C04@conc] store in q.queueBytesOnMemory[(*q.tail % q.cap) * 12 : (*q.tail % q.cap) * 12 + 12] when qInv(q) && *q.tail - *q.head < q.cap by lemmaProducerSlotByte
+//@   bystep[C04@conc] call sync/atomic.AddInt64#0 when qInv(q) && *q.tail - *q.head < q.cap && a0 == q.tail && a1 == 1 && e.seqID == qelem(q, *q.tail, 0) && e.offsetInShmBuf == qelem(q, *q.tail, 1) && e.status == qelem(q, *q.tail, 2) by lemmaProducerPublish
+//@   ghost var hseen int = 0
+//@   at call? sync/atomic.LoadInt64#1 ghost hseen := r0
+//@   at call? sync/atomic.AddInt64#0 hint[C04@conc] hseen <= *q.head && *q.tail - *q.head < q.cap && *q.tail == old(*q.tail)
+//@   at call? sync/atomic.AddInt64#0 ghost[C04@conc] q.gseq[*q.tail - 1] := e.seqID
+//@   at call? sync/atomic.AddInt64#0 ghost[C04@conc] q.goff[*q.tail - 1] := e.offsetInShmBuf
+//@   at call? sync/atomic.AddInt64#0 ghost[C04@conc] q.gst[*q.tail - 1] := e.status
+//@   ensures[C04@conc] r0 == nil ==> q.gseq[old(*q.tail)] == e.seqID && q.goff[old(*q.tail)] == e.offsetInShmBuf && q.gst[old(*q.tail)] == e.status && *q.tail == old(*q.tail) + 1
+//@   ensures[C04@conc] r0 != nil ==> r0 == ErrQueueFull && old(*q.tail) - hseen == q.cap && *q.tail == old(*q.tail)   // full only when it really was: at the instant head was read
+//@   ensures[C04@conc] qInv(q)
 
 //@ func (*queue).pop
 //@   requires wfQueue(q)
-//@   at call sync/atomic.AddInt64#0 check a0 == q.head && e.seqID == qelem(q, *q.head, 0) && e.offsetInShmBuf == qelem(q, *q.head, 1) && e.status == qelem(q, *q.head, 2)   // release order: the slot has been read completely when head is advanced
+//@   at call? sync/atomic.AddInt64#0 check a0 == q.head && e.seqID == qelem(q, *q.head, 0) && e.offsetInShmBuf == qelem(q, *q.head, 1) && e.status == qelem(q, *q.head, 2)   // release order: the slot has been read completely when head is advanced
 //@   assume   *q.head < 4611686018427387904   // environment: the 64-bit logical index does not wrap
 //@   ensures  old(*q.head) < old(*q.tail) ==> err == nil && *q.head == old(*q.head) + 1 && *q.tail == old(*q.tail)
 //@   ensures  old(*q.head) < old(*q.tail) ==> e.seqID == old(qelem(q, *q.head, 0)) && e.offsetInShmBuf == old(qelem(q, *q.head, 1)) && e.status == old(qelem(q, *q.head, 2))
@@ -44,6 +92,17 @@ import "encoding/binary"
 //@   ensures  forall k in [0, len(q.queueBytesOnMemory)): mem8(q.queueBytesOnMemory, k) == old(mem8(q.queueBytesOnMemory, k))
 //@   ensures  wfQueue(q)
 //@   modifies *q.head
+// pop under interference by the producers:
+//@   requires[C04@conc] headOK(q)
+//@   interference[C04@conc] region(q.queueBytesOnMemory), q.gseq, q.goff, q.gst
+//@   rely[C04@conc] prodCore(q) && popView(q)      // the instance at the head of the producers' guarantee (which put proves next to the general prodFrame && qInv)
+//@   guarantee[C04@conc] consCore(q) && consFrame(q)
+//@   ghost var tseen int = 0
+//@   at call? sync/atomic.LoadInt64#1 ghost tseen := r0
+//@   at call? sync/atomic.AddInt64#0 hint[C04@conc] *q.head == old(*q.head) && *q.head < *q.tail && e.seqID == q.gseq[*q.head] && e.offsetInShmBuf == q.goff[*q.head] && e.status == q.gst[*q.head]
+//@   ensures[C04@conc] err == nil ==> e.seqID == q.gseq[old(*q.head)] && e.offsetInShmBuf == q.goff[old(*q.head)] && e.status == q.gst[old(*q.head)] && *q.head == old(*q.head) + 1
+//@   ensures[C04@conc] err != nil ==> err == errQueueEmpty && old(*q.head) >= tseen && *q.head == old(*q.head)   // empty only when it really was: at the instant tail was read
+//@   ensures[C04@conc] headOK(q)
 
 //@ func (*queue).size
 //@   requires wfQueue(q)
@@ -569,6 +628,43 @@ import "encoding/binary"
 //@   loop 0 invariant[C01,C02] forall j in [0, i) trig(freeLists[j]): freeLists[j].bufferRegionOffsetInShm == freeLists[j].offsetInShm + 36 && freeLists[j].offsetInShm >= 0 && listEnd(freeLists[j]) <= nextOff
 //@   loop 0 invariant[C01,C02] forall j in [0, i) trig(freeLists[j]): forall k in [0, i) trig(freeLists[k]): j < k ==> listEnd(freeLists[j]) <= freeLists[k].offsetInShm
 //@   loop 0 modifies freeLists[0 : cap(freeLists)]
+
+// Step lemmas of the producers (verified like any other function; no interference inside a single step).
+func lemmaProducerSlotByte(q *queue, i int, v byte) {
+	q.queueBytesOnMemory[i] = v
+}
+
+//@ lemma lemmaProducerSlotByte
+//@   requires q != nil && qInv(q) && *q.tail - *q.head < q.cap && (*q.tail % q.cap) * 12 <= i && i < (*q.tail % q.cap) * 12 + 12
+//@   ensures  prodCore(q) && prodFrame(q) && qInv(q) && popView(q)
+//@   ensures  *q.tail - *q.head < q.cap
+//@   modifies q.queueBytesOnMemory[i : i + 1]
+
+func lemmaProducerPublish(q *queue) {
+	atomic.AddInt64(q.tail, 1)
+}
+
+//@ lemma lemmaProducerPublish
+//@   requires q != nil && qInv(q) && *q.tail - *q.head < q.cap
+//@   at call sync/atomic.AddInt64#0 ghost q.gseq[*q.tail - 1] := qelem(q, *q.tail - 1, 0)
+//@   at call sync/atomic.AddInt64#0 ghost q.goff[*q.tail - 1] := qelem(q, *q.tail - 1, 1)
+//@   at call sync/atomic.AddInt64#0 ghost q.gst[*q.tail - 1] := qelem(q, *q.tail - 1, 2)
+//@   assume   *q.tail < 4611686018427387904
+//@   ensures  prodCore(q) && prodFrame(q) && qInv(q) && popView(q)
+//@   modifies *q.tail, q.gseq, q.goff, q.gst
+
+// lemmaConsumerStepKeepsQInv: any step of the shape the consumer guarantees (head moves forward inside
+// [head, tail], nothing else changes: consCore && consFrame) preserves the queue invariant qInv; together with
+// the producers' guarantee (which contains qInv) this makes qInv an invariant of every reachable state, which
+// is what justifies headOK in the consumer's rely.
+func lemmaConsumerStepKeepsQInv(q *queue, h2 int64) {
+	*q.head = h2
+}
+
+//@ lemma lemmaConsumerStepKeepsQInv
+//@   requires q != nil && qInv(q) && *q.head <= h2 && h2 <= *q.tail
+//@   ensures  qInv(q) && headOK(q)
+//@   modifies *q.head
 
 // lemmaCreateThenMapList: a peer that maps a list created with any (bufferNum, capPerBuffer, offset)
 // succeeds and reconstructs the same header words, slot region and offsets. Verified from the two
